@@ -1,8 +1,64 @@
 ------------------------------- MODULE MathKernels -------------------------------
-(* Contracts of the float-level helpers (bit patterns, ulp relations).  Grows with C18/C19/C20. *)
+(* Contracts of yuvxyb-math (C18, C19, C20): bit patterns, ulp relations on exact (mantissa, exponent)
+   integers, relative-error relations in the log domain, exact 3x3 algebra.
+
+   Float wire formats used here:
+     bits  <<hi16, lo16>>                          raw f32 bit pattern
+     me    <<class, sign, m, e>>                   value = sign * m * 2^e  (exact)
+           class 0 zero, 1 normal (2^23 <= m < 2^24), 2 subnormal, 3 +inf, 4 -inf, 5 NaN            *)
 EXTENDS FxReal
 
-\* raw bits on the wire: <<hi16, lo16>>
 IsZeroBits(b) == b[2] = 0 /\ (b[1] = 0 \/ b[1] = 32768)
 SameBits(a, b) == a[1] = b[1] /\ a[2] = b[2]
+NegBits(b) == <<(b[1] + 32768) % 65536, b[2]>>          \* flip the sign bit
+
+IsNormal(a) == a[1] = 1
+\* ln of a positive normal float given as me:  ln(m / 2^23) + (e + 23) ln 2
+LnME(a) == Add(Ln(DivPow2(FromInt(a[3]), 23)), MulInt(Ln2, a[4] + 23))
+
+\* ---- cbrtf: |t - cbrt(x)| <= k ulp(t), decided exactly on integers:
+\*      (m_t - k)^3 2^(3 e_t)  <=  m_x 2^(e_x)  <=  (m_t + k)^3 2^(3 e_t)
+Cube(n) == LET a == NatOf(n) IN NatMul(NatMul(a, a), a)
+CbrtWithin(x, t, k) ==
+  /\ IsNormal(x) /\ IsNormal(t) /\ x[2] = t[2]
+  /\ LET d == x[4] - 3 * t[4] IN
+       /\ d \in 0..52                                  \* a result within k ulp has d in 45..49
+       /\ LET mid == NatShl(NatOf(x[3]), d) IN
+            NatCmp(Cube(t[3] - k), mid) <= 0 /\ NatCmp(mid, Cube(t[3] + k)) <= 0
+
+\* ---- powf: relative error in the log domain
+Ln1e35 == MulInt(Ln10, 35)
+Y80    == FromInt(80)
+PowInScope(x, y) == /\ IsNormal(x) /\ x[2] = 1 /\ y[1] # 9 /\ Cmp(Abs(y), Y80) <= 0
+                    /\ Cmp(Abs(Mul(y, LnME(x))), Ln1e35) <= 0
+\* fastmath contract: relative error <= 2.5e-4 + 8e-6 |y|
+PowTolFast(y) == Ln(Add(One, Add(D(0, 2, 5000, 0, 0), Mul(D(0, 0, 0800, 0, 0), Abs(y)))))
+\* libm contract of the exact build (C20): 2 ulp, i.e. relative 2 * 2^-23
+TwoUlpRel == Ln(Add(One, DivPow2(Two, 23)))
+PowOk(x, y, r, tol) == IsNormal(r) /\ r[2] = 1 /\ Cmp(Abs(Sub(LnME(r), Mul(y, LnME(x)))), Add(tol, SpecEps)) <= 0
+
+\* ---- expf
+X85 == FromInt(85)
+ExpTolFast == Ln(Add(One, D(0, 0, 1000, 0, 0)))          \* ln(1 + 1e-5)
+\* x <= 1e38 on exact me:  1e38 = 9860761.3 * 2^103
+LeqE38(a) == a[1] \in {0, 1, 2} /\ (a[4] + 23 < 126 \/ (a[4] + 23 = 126 /\ a[3] <= 9860761))
+ExpOk(xfx, xme, r, tol) ==
+  /\ (xfx[1] # 9 /\ Cmp(Abs(xfx), X85) <= 0) =>
+        (IsNormal(r) /\ r[2] = 1 /\ Cmp(Abs(Sub(LnME(r), xfx)), Add(tol, SpecEps)) <= 0)
+  /\ (xme[2] = 1 /\ LeqE38(xme) /\ (xfx[1] = 9 \/ Cmp(xfx, FromInt(89)) >= 0)) => r[1] = 3       \* +inf on [89, 1e38]
+  /\ (xme[2] = -1 /\ LeqE38(xme) /\ (xfx[1] = 9 \/ Cmp(xfx, FromInt(-88)) <= 0)) => r[1] = 0     \* 0 on [-1e38, -88]
+
+\* ---- 3x3 algebra (C19): tolerance 1e-5 * max(1, |exact|)
+RelTolAlg(v) == LET t == D(0, 0, 1000, 0, 0) IN IF Cmp(Abs(v), One) > 0 THEN Mul(t, Abs(v)) ELSE t
+NumOk(o, ref)  == o[1] # 9 /\ Cmp(Abs(Sub(o, ref)), Add(RelTolAlg(ref), SpecEps)) <= 0
+VecOk(o, ref)  == \A k \in 1..3 : NumOk(o[k], ref[k])
+MatOk(o, ref)  == \A i \in 1..3 : VecOk(o[i], ref[i])
+InBox2(x)      == x[1] # 9 /\ Cmp(Abs(x), Two) <= 0
+VecIn2(v)      == \A k \in 1..3 : InBox2(v[k])
+MatIn2(m)      == \A i \in 1..3 : VecIn2(m[i])
+ScaleVec(v, r) == <<Mul(v[1], r), Mul(v[2], r), Mul(v[3], r)>>
+CMul(a, b)     == <<Mul(a[1], b[1]), Mul(a[2], b[2]), Mul(a[3], b[3])>>
+NearIdent(P)   == \A i, j \in 1..3 : P[i][j][1] # 9 /\
+                    Cmp(Abs(Sub(P[i][j], Ident3[i][j])), Add(D(0, 1, 0, 0, 0), SpecEps)) <= 0     \* 1e-4
+MatAllNum(m)   == \A i, j \in 1..3 : m[i][j][1] # 9
 =====================================================================================
